@@ -2113,6 +2113,11 @@ def eval_pp_expr(expr: str):
     return ev(ast.parse(expr.strip(), mode="eval"))
 
 
+#: Longest line macro substitution may produce; a Fortran 2023 statement is
+#: limited to one million characters
+MAX_PP_LINE_LENGTH = 1_000_000
+
+
 def preprocess_file(
     contents_split: list,
     file_path: str = None,
@@ -2437,6 +2442,12 @@ def preprocess_file(
             # spare the expensive regex-substitution in case we do not need it at all
             if def_tmp not in line:
                 continue
+            # Macros that keep multiplying the text (e.g. a chain of definitions
+            # each using the next one twice) double the line with every step;
+            # no statement is that long, stop expanding
+            if len(line) > MAX_PP_LINE_LENGTH:
+                log.debug("%s... !!! Macro expansion too long (%d)", line[:40], i + 1)
+                break
             if isinstance(value, tuple):
                 line_new, nsubs = expand_func_macro(def_tmp, value, line)
             else:
